@@ -218,8 +218,8 @@ def release_case(ctx, case):
 
 def blocks(tier, seed):
     q = tier == 'quick'
-    nmax = 8 if q else 10
-    seeds_ = ('s0', 's1', 's2')
+    nmax = 8 if q else 13
+    seeds_ = ('s0', 's1', 's2') if q else ('s0', 's1', 's2', 's3', 's4')
     sc = [(s, n) for s in seeds_ for n in range(2, nmax + 1)]
     rc = [(s, n, r, f) for s in seeds_ for n in range(2, nmax + 1) for r in (False, True)
           for f in ('00', '01')]
@@ -239,7 +239,7 @@ def meta(tier, seed):
         rule='setup re-derived with reference arithmetic; release: explicit-state search to a fixpoint over sets of opened hops where '
              'every transition runs release_left_amhl_lock / decrypt_adapter / run_auth_scripts on the real builders',
         states_meaning='distinct (seed, n, options, set of opened hops) states and setup views; transitions = open attempts',
-        bounds={'chain_length': 8 if q else 10, 'seeds': 3},
+        bounds={'chain_length': 8 if q else 13, 'seeds': 3 if q else 5},
         assumptions=['discrete-log hardness for "a scalar from another hop or chain does not open"',
                      'scalars compared modulo L'],
     )
